@@ -346,6 +346,17 @@ CLAIMS = {
              "mode-letter subset). The CR/LF logic of readline and content equality are not decided.",
         technique="buffer-conservation rules on the CFG (dominance, paired slices, concatenation order) + finite-quotient evaluation of _set_mode",
         note="one listed exception (readline's no-newline return after the truncating break) with its reason"),
+    "C37": dict(
+        text="Partial: exception-escape analysis from the private-key loading entry points of every key class over the "
+             "resolved call graph - only SSHException subclasses (incl. PasswordRequiredException) and OSError may leave. "
+             "Sources: explicit raises, a frozen catalogue of partial operations (text-mode readlines, unhexlify, cipher "
+             "mode / finalize, bcrypt.kdf, nacl SigningKey, strict decodes, RSAPrivateNumbers.private_key, get_text), "
+             "constant-index subscripts without an established length, divisions by numbers from the file - each filtered "
+             "by the enclosing handlers; validation must not be an `assert`; the object returned by load_der_private_key "
+             "must be type-checked with a raising arm. Found 22 escaping sites in six loaders (all fixed, six fix: "
+             "commits). That a loaded key's halves agree is decided only at the site where the code checks it.",
+        technique="exception-escape analysis over the call graph with a frozen catalogue + length-guard dataflow for subscripts + CFG dominance",
+        note="operations outside the catalogue are assumed total: an uncatalogued partial operation is a missed escape, never a false alarm"),
     "C03": dict(
         text="Exact decision over a finite abstract domain: the framing arithmetic "
              "of Packetizer._build_packet is interpreted from the current AST for every "
